@@ -13,7 +13,7 @@ SPELLINGS_OFF = ["//nolint:errcheck", "// not a nolint comment"]
 
 
 def gen_module(rng, d):
-    """writes module ex.com/nl with packages a (upstream) and b (importer). returns expectations:
+    """writes module ex.com/nl with packages a (upstream), b (importer) and c (imports b only). returns expectations:
     list of (file, line, suppressed: bool) for every dereference that can see nil"""
     os.makedirs(os.path.join(d, "a"))
     os.makedirs(os.path.join(d, "b"))
@@ -93,9 +93,15 @@ def gen_module(rng, d):
     L.append("}")
     open(os.path.join(d, "a", "a.go"), "w").write("\n".join(L) + "\n")
     # ---- package b
-    B = ["package b", "", 'import "ex.com/nl/a"', "", "func G() int {", "\treturn a.Use(nil)", "}"]
+    B = ["package b", "", 'import "ex.com/nl/a"', "", "func G() int {", "\treturn a.Use(nil)", "}", "",
+         "// Via hands its argument on to a.Use (the second parameter keeps contract inference away)",
+         "func Via(p *a.T, n int) int {", "\treturn a.Use(p) + n", "}"]
     open(os.path.join(d, "b", "b.go"), "w").write("\n".join(B) + "\n")
-    exp.append(("a/a.go", use_line, sup_x))
+    # ---- package c imports b only: the finding it causes is located in the file of a package it does not import
+    os.makedirs(os.path.join(d, "c"))
+    C = ["package c", "", 'import "ex.com/nl/b"', "", "func H() int {", "\treturn b.Via(nil, 0)", "}"]
+    open(os.path.join(d, "c", "c.go"), "w").write("\n".join(C) + "\n")
+    exp.append(("a/a.go", use_line, sup_x, 2))      # two flows end here: from b.G and from c.H
     return exp
 
 
@@ -133,18 +139,19 @@ def run_suite(ctx, n_modules):
                 cm = [x for x in shown if isinstance(x, tuple)]
                 lines = [x for x in shown if not isinstance(x, tuple)]
                 src = open(os.path.join(d, "a", "a.go")).read()
-                for (f, line, sup) in exp:
+                for e in exp:
+                    (f, line, sup), maxcnt = e[:3], (e[3] if len(e) > 3 else 1)
                     total += 1
                     cnt = lines.count(line)
                     if sup and cnt:
                         bad.append(("nolint", "grouping=%s: a/a.go:%d carries a nolint comment but is still reported" % (grouping, line), src))
                     if not sup and cnt == 0:
                         bad.append(("hidden", "grouping=%s: the nil dereference at a/a.go:%d has no (matching) nolint comment but is shown nowhere" % (grouping, line), src))
-                    if cnt > 1:
+                    if cnt > maxcnt:
                         bad.append(("dup", "grouping=%s: a/a.go:%d is shown %d times" % (grouping, line, cnt), src))
                 if cm:
                     bad.append(("count", "grouping=%s: stated count differs from the list: %r" % (grouping, cm), src))
-                extra = set(lines) - {l for (_, l, _) in exp}
+                extra = set(lines) - {e[1] for e in exp}
                 if extra:
                     bad.append(("new", "grouping=%s: locations %r are reported but hold no dereference that can see nil" % (grouping, sorted(extra)), src))
             if m < 1:
